@@ -14,7 +14,10 @@ theorem step_cache (env : Env R) (s : State R) (t : Thread R) :
   | start => left; cases q <;> rfl
   | get idx => left; simp only [step]; split <;> rfl
   | read idx => left; simp only [step]; split <;> (try split) <;> rfl
-  | put idx r => right; exact ⟨idx, r, rfl⟩
+  | put idx r =>
+    simp only [step]; split
+    · left; rfl
+    · right; exact ⟨idx, r, rfl⟩
   | comp r => left; simp only [step]; split <;> rfl
   | fin => left; cases q <;> rfl
   | done => left; rfl
@@ -78,9 +81,10 @@ theorem step_track {env : Env R} {s : State R} {t : Thread R} {idx : Idx} {r : R
         · exact Or.inr (Or.inl h)
       · exact track_advance hk'
   | put i x =>
+    simp only [step]
     rcases hk with hk | hk | hk | hk
-    · exact Or.inl hk
-    · exact Or.inr (Or.inl hk)
+    · split <;> exact Or.inl hk
+    · split <;> exact Or.inr (Or.inl hk)
     · simp at hk
     · simp at hk
   | comp x =>
